@@ -9,5 +9,6 @@ CONSTANTS
   GcProtectsBuilding = TRUE
   MaxFaults = 1
   StoreMetaFirst = FALSE
+  KillWaits = TRUE
 INVARIANT CrashNoOrphan
 CHECK_DEADLOCK FALSE
